@@ -166,6 +166,14 @@ SPECIAL = [
     ("unchanged", "C", "", b"int a;\n"),
     # configurations that consult the FILE NAME (part of the property's argument list): the file is src.cpp / src.c in every mode
     ("name-sort", "CPP", "mod_sort_include=true\nmod_sort_incl_import_prioritize_filename=true\n", b"#include \"zeta.h\"\n#include \"src.h\"\n#include \"alpha.h\"\nint  a ;\n"),
+    # options whose code paths carry logging statements with many arguments: the log level must not steer the result
+    ("defargs-align", "CPP", "align_assign_span=1\n", b"void open_stream(const char *name, int mode = 0, bool create = false);\nvoid close(int fd = -1, unsigned long timeout_ms = 1000);\n"
+     b"int  seek_to(long offset, int whence = 0, bool relative_to_end = true);\n"),
+    ("defargs-align-decl", "CPP", "align_assign_span=1\nalign_assign_decl_func=1\n", b"void f(int a = 1, int b = 22, long c = 3);\nvoid g(int aa = 1, int b = 22);\nstruct S { S() = default; S(const S &) = delete; };\n"),
+    ("align-mix", "CPP", "align_assign_span=2\nalign_var_def_span=2\nalign_func_proto_span=2\nalign_typedef_span=2\nalign_right_cmt_span=3\nalign_enum_equ_span=2\nalign_var_struct_span=2\n"
+     "align_struct_init_span=2\nalign_nl_cont=1\nalign_pp_define_span=2\n",
+     b"#define A 1 // x\n#define BBB(x) \\\n  do { x; } \\\n  while (0)\ntypedef int t1;\ntypedef unsigned long ttt2;\nenum E { a = 1, bbb = 22, c };\nstruct P { int x; unsigned long yy; char *z; };\n"
+     b"struct P ps[] = { { 1, 2, 0 }, { 100, 20000, 0 } };\nint f(int a, int b = 2, int cc = 3); // one\nvoid gg(long q = 0, int r = 1); // two\nint main() {\n  int i = 0; // c1\n  long jjj = 10; // c2\n  i += 3;\n  jjj <<= 2;\n  return i;\n}\n"),
     ("name-sort-c", "C", "mod_sort_include=true\nmod_sort_incl_import_prioritize_filename=true\nindent_columns=3\n", b"#include <z.h>\n#include \"src.h\"\n#include \"b.h\"\nvoid f(){return;}\n"),
 ]
 
@@ -230,6 +238,30 @@ def run_case(wd, model, label, lang, cfg_text, data, findings, stats):
     return True
 
 
+def sweep_case(wd, label, lang, cfg_text, data, k, findings):
+    """observer sweep: plain -f against logging on (all severities; one single severity, cycling with k) and a parse dump; 4 executions"""
+    name = "src" + EXT.get(lang, ".c")
+    cfg = os.path.join(wd, "u.cfg")
+    open(cfg, "w").write(cfg_text)
+    p = os.path.join(wd, name)
+    open(p, "wb").write(data)
+    base = ["-c", cfg, "-l", lang, "-f", p]
+    rc0, ref = unc(["-q"] + base)
+    if rc0 != 0:
+        return False, 1
+    sev = str(k % 106)
+    for mname, extra in (("obs:-L-A", ["-L", "A"]), ("obs:-L-%s" % sev, ["-L", sev]), ("obs:-p", ["-q", "-p", os.path.join(wd, "parsed.txt")])):
+        rc, got = unc(base + extra, timeout=90)
+        if rc != 0:
+            findings.append(("status|%s" % mname.split("-L-")[0], "%s: plain -f exits 0 but %s exits %s" % (label, mname, rc)))
+        elif got != ref:
+            j = 0
+            while j < min(len(ref), len(got)) and ref[j] == got[j]:
+                j += 1
+            findings.append(("bytes|%s" % mname, "%s: %s delivers other bytes than plain -f (first difference at %d: %r vs %r)" % (label, mname, j, ref[j:j + 20], got[j:j + 20])))
+    return True, 4
+
+
 def run(rep, build, tier, seed):
     r = common.rng(seed, "C10")
     rep.cov["rule"] = ("each input is formatted through 25 executions: 15 delivery/output modes (stdin with --assume, with -l and with both, -f, -l -f, -f -o, --prefix, --suffix, "
@@ -237,7 +269,9 @@ def run(rep, build, tier, seed):
                        "settings (-p, -p with --debug-csv-format, -L A -s, -L with selected severities, no -q, --dump-steps), 2 environments (other cwd/locale/HOME/TZ; "
                        "relative paths with MALLOC_PERTURB_), a repeated run and an observer combined with an in-place mode; all delivered bytes are compared "
                        "with plain -f. Inputs: special shapes (same-length output, empty, no final newline, CRLF, CR, BOM, Latin-1, already formatted), corpus "
-                       "files of all languages under their test configuration, generated programs under random configurations. Non-trivial = plain -f exits 0.")
+                       "files of all languages under their test configuration, generated programs under random configurations. Non-trivial = plain -f exits 0. "
+                       "Observer sweep: a larger set of corpus files (quick 260, thorough all) is formatted plainly, with -L A, with one single severity (cycling 0..105) "
+                       "and with -p; the delivered bytes are compared.")
     if build.get("uncrustify") != "ok" or build.get("model") != "ok":
         rep.unproved("build failed", "\n".join(build["errors"])[-3000:])
         return rep.finish(common.proof_status("C10", build))
@@ -286,8 +320,42 @@ def run(rep, build, tier, seed):
             stats["tie"] += st["tie"]
             for key, what in f:
                 rep.finding(key, what, {"kind": "c10", "label": case[0], "lang": case[1], "cfg": case[2], "input_b64": common.b64(case[3])})
+    # observer sweep over (many more) corpus files under their own test configurations: logging must not steer the result
+    ns = 260 if tier == "quick" else 100000
+    sweep = []
+    for lang, cfg, inp, suite, num in cor:
+        if len(sweep) >= ns:
+            break
+        L = lang or common.lang_of_path(inp)
+        if L not in EXT:
+            continue
+        try:
+            data = open(inp, "rb").read()
+            cfg_text = open(cfg, errors="replace").read()
+        except OSError:
+            continue
+        if len(data) > 60000 or "include" in cfg_text:
+            continue
+        sweep.append(("sweep:%s:%s" % (suite, num), L, cfg_text, data, len(sweep)))
+
+    def swork(case):
+        if not hasattr(tl, "swd"):
+            tl.swd = tempfile.mkdtemp(dir=base)
+        f = []
+        ok, n = sweep_case(tl.swd, case[0], case[1], case[2], case[3], case[4], f)
+        return case, ok, n, f
+    nsw = 0
+    with ThreadPoolExecutor(max_workers=12) as ex:
+        for case, ok, n, f in ex.map(swork, sweep):
+            rep.count(key=(case[0], case[2], case[3][:200]), nontrivial=ok)
+            rep.cov["evaluations"] += n - 1
+            nsw += n
+            if ok:
+                rep.validated()
+            for key, what in f:
+                rep.finding(key, what, {"kind": "c10sweep", "label": case[0], "lang": case[1], "cfg": case[2], "input_b64": common.b64(case[3]), "k": case[4]})
     shutil.rmtree(base, ignore_errors=True)
-    rep.cov["input_distribution"] = {"inputs": len(cases), "executions": stats["modes"], "model_runs": stats["tie"]}
+    rep.cov["input_distribution"] = {"inputs": len(cases), "executions": stats["modes"], "model_runs": stats["tie"], "observer_sweep_inputs": len(sweep), "observer_sweep_executions": nsw}
     rep.sample({"label": cases[0][0], "config": cases[0][2], "input": cases[0][3][:100].decode("latin1")})
     ps = common.proof_status("C10", build)
     if (ps["discharged"] < ps["obligations"] or build["forbidden"] or build.get("model") != "ok") and not rep.violations:
@@ -302,6 +370,13 @@ def run(rep, build, tier, seed):
 def replay(rp, build):
     with tempfile.TemporaryDirectory(prefix="rr_", dir=common.WORK) as wd:
         f = []
+        if rp.get("kind") == "c10sweep":
+            sweep_case(wd, rp.get("label", "replay"), rp["lang"], rp.get("cfg") or "", common.unb64(rp["input_b64"]), rp.get("k", 18), f)
+            for k, w in f:
+                print("VIOLATION reproduced:", w)
+            if not f:
+                print("property holds on this replay")
+            return 1 if f else 0
         run_case(wd, common.Model(), rp.get("label", "replay"), rp["lang"], rp.get("cfg") or "", common.unb64(rp["input_b64"]), f, {"modes": 0, "tie": 0})
         for k, w in f:
             print("VIOLATION reproduced:", w)
